@@ -27,15 +27,15 @@ import (
 const c18bodyLen = 3000
 
 type c18srv struct {
-	h       *server.Hertz
-	addr    string
-	gates   sync.Map // request id -> chan struct{}
-	once    sync.Map
+	h        *server.Hertz
+	addr     string
+	gates    sync.Map // request id -> chan struct{}
+	once     sync.Map
 	accepted sync.Map // remote address of every connection OnAccept saw
-	arrived sync.Map // request id -> struct{}
-	hookLog []string
-	hookMu  sync.Mutex
-	runErr  chan error
+	arrived  sync.Map // request id -> struct{}
+	hookLog  []string
+	hookMu   sync.Mutex
+	runErr   chan error
 }
 
 func c18freeAddr() string {
@@ -264,6 +264,12 @@ func init() {
 			time.Sleep(shutdownAt - time.Since(t0))
 			var res1, res2 error
 			var d1 time.Duration
+			var logAtReturn string // what the hooks had logged when the Shutdown call that did the work returned nil
+			captureLog := func() {
+				s.hookMu.Lock()
+				logAtReturn = strings.Join(s.hookLog, ",")
+				s.hookMu.Unlock()
+			}
 			var swg sync.WaitGroup
 			swg.Add(2)
 			second := r.Intn(3) // 0: concurrently, 1: shortly after, 2: after the first returned
@@ -273,6 +279,9 @@ func init() {
 				ts := time.Now()
 				res1 = s.h.Shutdown(context.Background())
 				d1 = time.Since(ts)
+				if res1 == nil {
+					captureLog()
+				}
 				shutdownReturned.Store(time.Now().UnixNano())
 			}()
 			go func() {
@@ -286,7 +295,13 @@ func init() {
 					}
 				}
 				done := make(chan struct{})
-				go func() { res2 = s.h.Shutdown(context.Background()); close(done) }()
+				go func() {
+					res2 = s.h.Shutdown(context.Background())
+					if res2 == nil {
+						captureLog()
+					}
+					close(done)
+				}()
 				select {
 				case <-done:
 				case <-time.After(exitWait + 3*time.Second):
@@ -310,10 +325,8 @@ func init() {
 				}
 				c.Close()
 			}
-			// hooks: all started; those that fit into the exit wait finished
-			s.hookMu.Lock()
-			log := strings.Join(s.hookLog, ",")
-			s.hookMu.Unlock()
+			// hooks: all started; those that fit into the exit wait had finished when Shutdown returned
+			log := logAtReturn
 			for i, ms := range hooks {
 				if !strings.Contains(log, fmt.Sprintf("start%d", i)) {
 					bad("shutdown-hook-did-not-run", fmt.Sprintf("hook %d; log %s", i, log))
@@ -356,6 +369,10 @@ func init() {
 			// directed: standard transport, slow OnAccept, connections accepted right before the shutdown call
 			t.Do(In{Nn(7), Nn(0), Nn(600), Nn(2), S("1"), Nn(40)}, true)
 			t.Do(In{Nn(8), Nn(0), Nn(600), Nn(1), S(""), Nn(25)}, true)
+			// directed: an idle server (the transport is drained at once) and a hook well within the exit wait time
+			t.Do(In{Nn(9), Nn(0), Nn(1200), Nn(0), S("200")}, true)
+			t.Do(In{Nn(10), Nn(1), Nn(1200), Nn(0), S("1,250")}, true)
+			t.Do(In{Nn(11), Nn(0), Nn(1200), Nn(1), S("120")}, true)
 		}})
 }
 
